@@ -64,6 +64,16 @@ func c11View(n *cluster.SNode, m *memRig, ts uint64) (view string) {
 	if cur, err := n.Store.ReadCustodian(ts); err == nil && cur != nil {
 		fmt.Fprintf(&b, "|custodian:%s@%d:%d", cur.Custodian.String()[:12], cur.Timestamp, len(cur.Nodes))
 	}
+	// the durable membership history as the store reports it for that instant (what the RPC and the
+	// custodian validation read), latest record per signer and full state sequence
+	b.WriteString("|store:")
+	for _, sn := range n.Store.ReadAllNodes(ts, false) {
+		fmt.Fprintf(&b, "%s:%s:%d,", sn.Signer.String()[:8], sn.State, sn.Timestamp)
+	}
+	b.WriteString("|states:")
+	for _, sn := range n.Store.ReadAllNodes(ts, true) {
+		fmt.Fprintf(&b, "%s:%s:%d,", sn.Signer.String()[:8], sn.State, sn.Timestamp)
+	}
 	return b.String()
 }
 
